@@ -2,11 +2,13 @@ CHECK = {
     "suites": [suite("stream", "c13", 250, 1200, stdin=True, args=["-suite", "stream"], timeout={"quick": 600, "thorough": 2400}),
                suite("trees", "c13", 200, 2000, stdin=True, args=["-suite", "trees"], timeout={"quick": 600, "thorough": 2400})],
     "gen": [{"pkg": "extract_c13", "out": "lean/ClusterVerif/Gen/C13.lean"},
-            {"pkg": "extract_c13flow", "out": "lean/ClusterVerif/Gen/C13Flow.lean"}],
+            {"pkg": "extract_c13flow", "out": "lean/ClusterVerif/Gen/C13Flow.lean"},
+            {"pkg": "extract_c13par", "out": "lean/ClusterVerif/Gen/C13Par.lean"}],
     "lean_sources": ["ClusterVerif/Model/Pin.lean", "ClusterVerif/Gen/C13.lean", "ClusterVerif/Model/C13.lean",
                      "ClusterVerif/Spec/C13.lean", "ClusterVerif/Lemmas/C13.lean", "ClusterVerif/Lemmas/C13Log.lean", "ClusterVerif/Lemmas/C13Deliv.lean",
                      "ClusterVerif/Model/C13Import.lean", "ClusterVerif/Lemmas/C13Import.lean",
-                     "ClusterVerif/Model/C13FlowOps.lean", "ClusterVerif/Gen/C13Flow.lean", "ClusterVerif/Model/C13Flow.lean"],
+                     "ClusterVerif/Model/C13FlowOps.lean", "ClusterVerif/Gen/C13Flow.lean", "ClusterVerif/Model/C13Flow.lean",
+                     "ClusterVerif/Model/C13Par.lean", "ClusterVerif/Gen/C13Par.lean", "ClusterVerif/Lemmas/C13Par.lean"],
     "rule": "stream: synthetic raw-block streams (1-6 runs of equal-sized blocks, repeats, early/foreign roots; 5983..11969 four-byte blocks in the "
             "thorough tier) into single.New / sharding.New with shard limits at, one under and one over sums of block runs, 1-4 scripted allocations "
             "over 5 destinations, BlockPut faults (IPFS / RPC error, from the j-th put of a destination), BlockAllocate and Pin failures; "
@@ -16,7 +18,13 @@ CHECK = {
             "handler) with the same scripted cluster side; for every successful add the harness dumps the structure of the delivered DAG under the "
             "returned root (per node: kind, links in encoded order, data length, recorded block sizes, stream id) and the driver compares it with "
             "the tree the Lean importer model builds for the case (whole DAG for the size splitter, every file DAG over its own leaf lengths for any "
-            "chunker) and the stream order with the model's post-order emission; non-trivial = at least one block reached the DAG service; distinct by case line",
+            "chunker) and the stream order with the model's post-order emission; about one tree case in six on the direct route injects a "
+            "front-end fault: the request's context cancelled when the k-th top-level entry is asked for (k = number of entries: before Finalize) "
+            "or when the k-th block reaches the DAG service, or the multipart body cut at a random offset (closing boundary always damaged; not "
+            "with the rabin splitter, which spins on such input): an aborted add must show no Finalize, no success and no root pin, one that "
+            "was not aborted must agree with the model in full (a context cancelled inside an entry: Spec only, without the two allocation-equality "
+            "clauses, because BlockPuts that die on the caller's side are invisible to the recording services); a cut body that mime/multipart alone "
+            "reports as broken must be refused, one that reads as a clean shorter upload is held to closure and bookkeeping only; every unixfs case's request is run through the interpreted parameter plumbing; non-trivial = at least one block reached the DAG service; distinct by case line",
     "trusted_base": ["five libp2p hosts on loopback with recording IPFSConnector.BlockPut / Cluster.BlockAllocate / Cluster.Pin services; an RPC-type put "
                      "failure is produced by dropping the connection under the call (remote) or returning a gorpc client error (local)",
                      "a recording wrapper around the ClusterDAGService under test (Add stream, Finalize); verif_export.go (VerifNewCluster) for Cluster.AddFile",
@@ -29,7 +37,11 @@ CHECK = {
                     "(size splitter, balanced / trickle layout, directories, hidden filter, wrap, emitted stream) with CIDs abstracted to structural identity; "
                     "that model is tied to the code by exact structure comparison on generated inputs. Hash computation, protobuf / unixfs / cbor encodings, "
                     "link Tsize, CAR decoding and rabin / buzhash boundaries are not modelled: for them the four content clauses rest on the Go oracles",
-                    "importer width 174 (go-unixfs DefaultLinksPerBlock), trickle depthRepeat 4 and the default chunk size 262144 are constants of the model, not regenerated",
+                    "importer width 174 (go-unixfs DefaultLinksPerBlock), trickle depthRepeat 4 and the default chunk size 262144 are constants of the model; "
+                    "their values in the linked libraries are regenerated and a theorem (gen_importer_constants) states they are the model's",
+                    "NoCopy / Progress are covered by the interpreted plumbing (theorems) only: the harness never sets them; hash-name table = multihash.Names of the linked library",
+                    "a cancelled context is only noticed between top-level entries (select in FromFiles): BlockPut / Pin calls issued with the cancelled context still "
+                    "go through in this setting, so an add cancelled inside its last entry or just before Finalize completes and pins (observed, agrees with the model)",
                     "the importer reaches Finalize only when no Add failed (CallerStops); refuted for go-unixfs balanced.Layout: known finding K33",
                     "added content is pinned recursively whatever pin mode was requested; negative replication factors are written as empty allocations",
                     "adds with the local flag are outside the allocation clause; several top-level entries without wrapping are outside the property",
@@ -58,8 +70,18 @@ META = {
             "fields - Pin, Size / Limit) and Adder.FromFiles (format switch, construction error, wrap, entry loop with cancellation test, CAR break, "
             "iterator error, Finalize) are regenerated as operation orders and compared; FromFiles is modelled over abstract entries with theorems: a "
             "failing entry, a cancelled context, a broken entry iterator or refused parameters mean Finalize is not called, and then no data / meta pin "
-            "is accepted (front_failure_no_pin); all entries fine means every entry is added in order and Finalize gets the last root.",
+            "is accepted (front_failure_no_pin); all entries fine means every entry is added in order and Finalize gets the last root. "
+            "Round 8b: the parameter plumbing is regenerated and interpreted: newIpfsAdder (adder/adder.go) as a statement list whose right-hand sides are "
+            "expression trees, (*ipfsadd.Adder).add as the DagBuilderParams literal + chunker argument + layout switch; theorem params_reach_importer: for "
+            "every request (layout, chunker string, raw-leaves, no-copy, progress, CID version, hash name) the program read from the source configures the "
+            "importer exactly as requested or refuses (unknown version / hash, CIDv0 with another hash), explicit_values_unchanged field by field, "
+            "plumb_end_to_end through both functions (all proved by symbolic execution of the generated program, so a meaning-preserving rewrite still checks), "
+            "harmless_reorder_same, refutations of the "
+            "edited programs (raw leaves forced for CIDv1 = seeded change C13f, raw-leaves dropped, hash dropped), unknown statement never yields an importer; "
+            "importer constants of the linked go-unixfs / go-ipfs-chunker / go-multihash regenerated (gen_importer_constants); chunker.FromString modelled "
+            "(chunker_string_sound: an accepted size is > 0 and <= the limit). The driver runs every case's request through the interpreted plumbing, and "
+            "cancellation (between entries, at a block) and truncated multipart uploads are injected by the harness and held to the FromFiles model.",
     "note": "Partial: bookkeeping proved; content proved over the importer model up to hashing and byte encodings, which are validated. Trusted: Lean kernel, hand-written model/spec and view decoder, harness fakes over real libp2p "
             "streams, Go content oracles (go-unixfs / go-merkledag / go-car).",
-    "technique": "Lean 4 theorems over a step model and an importer model + generated constants + interpreted statement flow of the single DAG service + differential correspondence on recorded BlockPut / Pin logs and DAG structure dumps + read-back oracle",
+    "technique": "Lean 4 theorems over a step model and an importer model + generated constants + interpreted statement flow of the single DAG service and of the parameter plumbing + differential correspondence on recorded BlockPut / Pin logs and DAG structure dumps + read-back oracle",
 }
